@@ -559,27 +559,33 @@ Definition run (e : exp) : string := render_res (eval 30 (ENone, []) ENone e).
 Definition off_outer_rest := {| flatten_checks_outer_rest := false; flatten_checks_inner_rest := true; flatten_checks_operand_ids := true;
      plain_let_skips_short_calls := true; plain_let_builds_const_list := true; prune_if_quote_false_is_false := true;
      consteval_checks_rest_is_used := true; consteval_checks_surplus_operands := true; consteval_emits_value := true;
-     consteval_checks_set_idents := true; consteval_static_arity := true |}.
+     consteval_checks_set_idents := true; consteval_static_arity := true;
+     consteval_operands_outer_scope := true |}.
 Definition off_inner_rest := {| flatten_checks_outer_rest := true; flatten_checks_inner_rest := false; flatten_checks_operand_ids := true;
      plain_let_skips_short_calls := true; plain_let_builds_const_list := true; prune_if_quote_false_is_false := true;
      consteval_checks_rest_is_used := true; consteval_checks_surplus_operands := true; consteval_emits_value := true;
-     consteval_checks_set_idents := true; consteval_static_arity := true |}.
+     consteval_checks_set_idents := true; consteval_static_arity := true;
+     consteval_operands_outer_scope := true |}.
 Definition off_operand_ids := {| flatten_checks_outer_rest := true; flatten_checks_inner_rest := true; flatten_checks_operand_ids := false;
      plain_let_skips_short_calls := true; plain_let_builds_const_list := true; prune_if_quote_false_is_false := true;
      consteval_checks_rest_is_used := true; consteval_checks_surplus_operands := true; consteval_emits_value := true;
-     consteval_checks_set_idents := true; consteval_static_arity := true |}.
+     consteval_checks_set_idents := true; consteval_static_arity := true;
+     consteval_operands_outer_scope := true |}.
 Definition off_short_calls := {| flatten_checks_outer_rest := true; flatten_checks_inner_rest := true; flatten_checks_operand_ids := true;
      plain_let_skips_short_calls := false; plain_let_builds_const_list := true; prune_if_quote_false_is_false := true;
      consteval_checks_rest_is_used := true; consteval_checks_surplus_operands := true; consteval_emits_value := true;
-     consteval_checks_set_idents := true; consteval_static_arity := true |}.
+     consteval_checks_set_idents := true; consteval_static_arity := true;
+     consteval_operands_outer_scope := true |}.
 Definition off_const_list := {| flatten_checks_outer_rest := true; flatten_checks_inner_rest := true; flatten_checks_operand_ids := true;
      plain_let_skips_short_calls := true; plain_let_builds_const_list := false; prune_if_quote_false_is_false := true;
      consteval_checks_rest_is_used := true; consteval_checks_surplus_operands := true; consteval_emits_value := true;
-     consteval_checks_set_idents := true; consteval_static_arity := true |}.
+     consteval_checks_set_idents := true; consteval_static_arity := true;
+     consteval_operands_outer_scope := true |}.
 Definition off_quote_false := {| flatten_checks_outer_rest := true; flatten_checks_inner_rest := true; flatten_checks_operand_ids := true;
      plain_let_skips_short_calls := true; plain_let_builds_const_list := true; prune_if_quote_false_is_false := false;
      consteval_checks_rest_is_used := true; consteval_checks_surplus_operands := true; consteval_emits_value := true;
-     consteval_checks_set_idents := true; consteval_static_arity := true |}.
+     consteval_checks_set_idents := true; consteval_static_arity := true;
+     consteval_operands_outer_scope := true |}.
 
 Definition one (e : exp) : exps := ECons e ENil.
 Definition two (a b : exp) : exps := ECons a (ECons b ENil).
@@ -655,15 +661,18 @@ Proof. vm_compute. repeat split; try reflexivity; discriminate. Qed.
 Definition off_rest_used := {| flatten_checks_outer_rest := true; flatten_checks_inner_rest := true; flatten_checks_operand_ids := true;
      plain_let_skips_short_calls := true; plain_let_builds_const_list := true; prune_if_quote_false_is_false := true;
      consteval_checks_rest_is_used := false; consteval_checks_surplus_operands := true; consteval_emits_value := true;
-     consteval_checks_set_idents := true; consteval_static_arity := true |}.
+     consteval_checks_set_idents := true; consteval_static_arity := true;
+     consteval_operands_outer_scope := true |}.
 Definition off_surplus := {| flatten_checks_outer_rest := true; flatten_checks_inner_rest := true; flatten_checks_operand_ids := true;
      plain_let_skips_short_calls := true; plain_let_builds_const_list := true; prune_if_quote_false_is_false := true;
      consteval_checks_rest_is_used := true; consteval_checks_surplus_operands := false; consteval_emits_value := true;
-     consteval_checks_set_idents := true; consteval_static_arity := true |}.
+     consteval_checks_set_idents := true; consteval_static_arity := true;
+     consteval_operands_outer_scope := true |}.
 Definition off_emits_value := {| flatten_checks_outer_rest := true; flatten_checks_inner_rest := true; flatten_checks_operand_ids := true;
      plain_let_skips_short_calls := true; plain_let_builds_const_list := true; prune_if_quote_false_is_false := true;
      consteval_checks_rest_is_used := true; consteval_checks_surplus_operands := true; consteval_emits_value := false;
-     consteval_checks_set_idents := true; consteval_static_arity := true |}.
+     consteval_checks_set_idents := true; consteval_static_arity := true;
+     consteval_operands_outer_scope := true |}.
 
 (* F37: ((lambda (a . r) r) 1) *)
 Definition w_f37 : exp := Call (Lam ["a"; "r"] true (Loc "r")) (one (Num 1)).
